@@ -119,6 +119,9 @@ class Ctx:
             self.incomplete(rule, instance, e.what, where)
         except RecursionError:
             self.incomplete(rule, instance, 'recursion limit in abstract evaluation', where)
+        except Exception as e:   # analyzer defect: fail closed for this rule, keep evaluating the others
+            traceback.print_exc()
+            self.incomplete(rule, instance, 'analyzer error %s: %s' % (type(e).__name__, e), where)
         return None
 
 
